@@ -10,7 +10,7 @@ use sux::bits::{AtomicBitFieldVec, BitFieldVec};
 use sux::prelude::*;
 
 macro_rules! c05_family {
-    ($W:ty, $N:expr, $refget:ident) => {
+    ($W:ty, $N:expr, $refget:ident, $EQUNW:literal, $GW:literal, $CW:literal) => {
         use super::super::*;
         type W = $W;
         const N: usize = $N;
@@ -34,6 +34,19 @@ macro_rules! c05_family {
             kani::assume(len <= 2 * N * B);
             kani::assume(len * w <= N * B);
             (words, w, len)
+        }
+
+        /// Pre-state for the multi-step Vec-backed harnesses (resize, extend):
+        /// symbolic width for the narrow word types, the concrete width `$GW`
+        /// (a straddling width) and a concrete length for the wide ones, where the symbolic-width
+        /// version exhausts 16 GB.
+        fn any_arr_cw() -> ([W; N], usize, usize) {
+            if $CW {
+                let words: [W; N] = kani::any();
+                (words, $GW, N * B / $GW - 1)
+            } else {
+                any_arr()
+            }
         }
 
         /// `get` against the double-width reference on the raw words.
@@ -112,17 +125,17 @@ macro_rules! c05_family {
             std::mem::forget(v);
         }
 
-        /// `resize(new_len, x)`: truncation keeps a prefix, growth (by at most
-        /// 3 elements per step) appends copies of x.
+        /// `resize(new_len, x)` inside the existing backend: truncation keeps a
+        /// prefix, growth (by at most 2 elements per step) appends copies of x.
         #[kani::proof]
-        #[kani::unwind(8)]
+        #[kani::unwind(4)]
         pub fn resize_step() {
-            let (words, w, len) = any_arr();
+            let (words, w, len) = any_arr_cw();
             let mut v = unsafe { BitFieldVec::<W, Vec<W>>::from_raw_parts(words.to_vec(), w, len) };
             let x: W = kani::any();
             kani::assume(x & wmask(w) == x);
-            let new_len: usize = kani::any();
-            kani::assume(new_len <= len + 3);
+            let new_len: usize = if $CW { len + 1 } else { kani::any() };
+            kani::assume(new_len <= len + 2 && new_len * w <= N * B);
             v.resize(new_len, x);
             assert_eq!(v.len(), new_len);
             let j: usize = kani::any();
@@ -132,8 +145,54 @@ macro_rules! c05_family {
             } else {
                 assert_eq!(v.get(j), x);
             }
-            kani::cover!(new_len > len && new_len * w > N * B, "resize grows the backend");
-            kani::cover!(new_len < len, "resize truncates");
+            kani::cover!(new_len > len, "resize grows in place");
+            kani::cover!($CW || new_len < len, "resize truncates");
+            std::mem::forget(v);
+        }
+
+        /// `resize` truncating by one element (concrete shape; the symbolic
+        /// version is part of `resize_step` for the narrow word types).
+        #[kani::proof]
+        #[kani::unwind(4)]
+        pub fn resize_trunc() {
+            let (words, w, len) = any_arr_cw();
+            kani::assume(len >= 1);
+            let mut v = unsafe { BitFieldVec::<W, Vec<W>>::from_raw_parts(words.to_vec(), w, len) };
+            let x: W = kani::any();
+            kani::assume(x & wmask(w) == x);
+            let new_len = if $CW { len - 1 } else { len / 2 };
+            v.resize(new_len, x);
+            assert_eq!(v.len(), new_len);
+            let j: usize = kani::any();
+            kani::assume(j < new_len);
+            assert_eq!(v.get(j), $refget(&words, w, j));
+            kani::cover!(true);
+            std::mem::forget(v);
+        }
+
+        /// `resize` that has to grow the backend: concrete width `$GW` on a full
+        /// backend, growth by 1 or 2 elements.
+        #[kani::proof]
+        #[kani::unwind(4)]
+        pub fn resize_grow() {
+            const GW: usize = $GW;
+            const LEN: usize = N * B / GW;
+            let words: [W; N] = kani::any();
+            let mut v = unsafe { BitFieldVec::<W, Vec<W>>::from_raw_parts(words.to_vec(), GW, LEN) };
+            let x: W = kani::any();
+            kani::assume(x & wmask(GW) == x);
+            let k: usize = if $CW { 2 } else { kani::any() };
+            kani::assume(k >= 1 && k <= 2);
+            v.resize(LEN + k, x);
+            assert_eq!(v.len(), LEN + k);
+            let j: usize = kani::any();
+            kani::assume(j < LEN + k);
+            if j < LEN {
+                assert_eq!(v.get(j), $refget(&words, GW, j));
+            } else {
+                assert_eq!(v.get(j), x);
+            }
+            kani::cover!(k == 2);
             std::mem::forget(v);
         }
 
@@ -155,14 +214,16 @@ macro_rules! c05_family {
             std::mem::forget(v);
         }
 
-        /// `extend` with two values equals two pushes.
+        /// `extend` with two values equals two pushes (inside the backend).
         #[kani::proof]
-        #[kani::unwind(8)]
+        #[kani::unwind(4)]
         pub fn extend_step() {
-            let (words, w, len) = any_arr();
+            let (words, w, len) = any_arr_cw();
             let mut v = unsafe { BitFieldVec::<W, Vec<W>>::from_raw_parts(words.to_vec(), w, len) };
             let x: [W; 2] = kani::any();
             kani::assume(x[0] & wmask(w) == x[0] && x[1] & wmask(w) == x[1]);
+            // growth of the backend is decided by push_step
+            kani::assume($CW || (len + 2) * w <= N * B);
             v.extend(x);
             assert_eq!(v.len(), len + 2);
             assert_eq!(v.get(len), x[0]);
@@ -266,7 +327,7 @@ macro_rules! c05_family {
         /// Equality: equal vectors have equal elements; vectors differing in
         /// one element, in length or in width are different.
         #[kani::proof]
-        #[kani::unwind(6)]
+        #[kani::unwind($EQUNW)]
         pub fn eq_sound() {
             let (words, w, len) = any_arr();
             let a = unsafe { Arr::from_raw_parts(words, w, len) };
@@ -289,7 +350,7 @@ macro_rules! c05_family {
         /// outside the logical contents is equal to it; one differing in one
         /// element is not.
         #[kani::proof]
-        #[kani::unwind(6)]
+        #[kani::unwind($EQUNW)]
         pub fn eq_complete() {
             let (words, w, len) = any_arr();
             let a = unsafe { Arr::from_raw_parts(words, w, len) };
@@ -303,26 +364,6 @@ macro_rules! c05_family {
             assert!(a != b);
             assert!(b != a);
             kani::cover!(true);
-        }
-
-        /// `from_slice` of three elements keeps them and picks the minimal width.
-        #[kani::proof]
-        #[kani::unwind(8)]
-        pub fn from_slice3() {
-            let words: [W; N] = kani::any();
-            let w: usize = kani::any();
-            kani::assume(w <= B && 3 * w <= N * B);
-            let s = unsafe { Arr::from_raw_parts(words, w, 3) };
-            let r = BitFieldVec::<W, Vec<W>>::from_slice(&s);
-            let v = r.unwrap();
-            assert_eq!(v.len(), 3);
-            let i: usize = kani::any();
-            kani::assume(i < 3);
-            assert_eq!(v.get(i), $refget(&words, w, i));
-            let m = $refget(&words, w, 0) | $refget(&words, w, 1) | $refget(&words, w, 2);
-            assert_eq!(BitFieldSliceCore::<W>::bit_width(&v), B - m.leading_zeros() as usize);
-            kani::cover!(true);
-            std::mem::forget(v);
         }
 
         /// Constructors: `new`, `new_unaligned`, `with_capacity` with a symbolic
@@ -352,15 +393,10 @@ macro_rules! c05_family {
             std::mem::forget(c);
         }
 
-        /// Growth from `with_capacity`: two pushes and a pop.
-        #[kani::proof]
-        #[kani::unwind(8)]
-        pub fn with_capacity_push() {
-            let w: usize = kani::any();
-            kani::assume(w <= B);
-            let cap: usize = kani::any();
-            kani::assume(cap <= 2);
-            let mut c = BitFieldVec::<W, Vec<W>>::with_capacity(w, cap);
+        /// Growth from `with_capacity`: two pushes and a pop, for the widths
+        /// 0, 1, `$GW` and `W::BITS` (concrete, so that the capacity is).
+        fn with_capacity_push_w(w: usize) {
+            let mut c = BitFieldVec::<W, Vec<W>>::with_capacity(w, 1);
             let x: [W; 2] = kani::any();
             kani::assume(x[0] & wmask(w) == x[0] && x[1] & wmask(w) == x[1]);
             c.push(x[0]);
@@ -370,9 +406,28 @@ macro_rules! c05_family {
             assert_eq!(c.get(1), x[1]);
             assert_eq!(c.pop(), Some(x[1]));
             assert_eq!(c.len(), 1);
-            kani::cover!(w == 0, "zero width");
-            kani::cover!(w == B, "full width");
+            kani::cover!(true);
             std::mem::forget(c);
+        }
+        #[kani::proof]
+        #[kani::unwind(4)]
+        pub fn with_capacity_push_w0() {
+            with_capacity_push_w(0);
+        }
+        #[kani::proof]
+        #[kani::unwind(4)]
+        pub fn with_capacity_push_w1() {
+            with_capacity_push_w(1);
+        }
+        #[kani::proof]
+        #[kani::unwind(4)]
+        pub fn with_capacity_push_wg() {
+            with_capacity_push_w($GW);
+        }
+        #[kani::proof]
+        #[kani::unwind(4)]
+        pub fn with_capacity_push_wfull() {
+            with_capacity_push_w(B);
         }
 
         /// `set_len` within the backend and `addr_of`.
@@ -469,6 +524,37 @@ macro_rules! c05_family {
             kani::assume(k > len);
             let _ = v.iter_from(k);
             kani::cover!(true, "returned normally");
+        }
+
+    };
+}
+
+macro_rules! c05_from_slice {
+    ($refget:ident) => {
+        /// `from_slice` of two elements keeps them and picks the minimal width.
+        #[kani::proof]
+        #[kani::unwind(4)]
+        pub fn from_slice2() {
+            let words: [W; N] = kani::any();
+            let w: usize = kani::any();
+            kani::assume(w <= B && 2 * w <= N * B);
+            let s = unsafe { Arr::from_raw_parts(words, w, 2) };
+            let r = BitFieldVec::<W, Vec<W>>::from_slice(&s);
+            let v = match r {
+                Ok(v) => v,
+                Err(e) => {
+                    std::mem::forget(e);
+                    panic!("from_slice failed");
+                }
+            };
+            assert_eq!(v.len(), 2);
+            let i: usize = kani::any();
+            kani::assume(i < 2);
+            assert_eq!(v.get(i), $refget(&words, w, i));
+            let m = $refget(&words, w, 0) | $refget(&words, w, 1);
+            assert_eq!(BitFieldSliceCore::<W>::bit_width(&v), B - m.leading_zeros() as usize);
+            kani::cover!(true);
+            std::mem::forget(v);
         }
 
     };
@@ -586,11 +672,11 @@ macro_rules! c05_atomic {
 /// Quick tier: u8 (4 words: two-word straddles with tiny state) and usize.
 pub mod q {
     pub mod u8_ {
-        c05_family!(u8, 4, ref_get_u8);
+        c05_family!(u8, 4, ref_get_u8, 6, 5, false);
         c05_atomic!(std::sync::atomic::AtomicU8, ref_get_u8);
     }
     pub mod usize_ {
-        c05_family!(usize, 3, ref_get_usize);
+        c05_family!(usize, 3, ref_get_usize, 26, 63, true);
         c05_atomic!(std::sync::atomic::AtomicUsize, ref_get_usize);
     }
 
@@ -644,19 +730,27 @@ pub mod q {
 /// Thorough tier adds the other four word types.
 #[cfg(feature = "c05_t")]
 pub mod t {
+    pub mod from_slice_u8 {
+        use super::super::*;
+        type W = u8;
+        const N: usize = 4;
+        const B: usize = 8;
+        type Arr = BitFieldVec<W, [W; N]>;
+        c05_from_slice!(ref_get_u8);
+    }
     pub mod u16_ {
-        c05_family!(u16, 4, ref_get_u16);
+        c05_family!(u16, 4, ref_get_u16, 10, 11, false);
         c05_atomic!(std::sync::atomic::AtomicU16, ref_get_u16);
     }
     pub mod u32_ {
-        c05_family!(u32, 3, ref_get_u32);
+        c05_family!(u32, 3, ref_get_u32, 14, 31, true);
         c05_atomic!(std::sync::atomic::AtomicU32, ref_get_u32);
     }
     pub mod u64_ {
-        c05_family!(u64, 3, ref_get_u64);
+        c05_family!(u64, 3, ref_get_u64, 26, 63, true);
         c05_atomic!(std::sync::atomic::AtomicU64, ref_get_u64);
     }
     pub mod u128_ {
-        c05_family!(u128, 3, ref_get_u128);
+        c05_family!(u128, 3, ref_get_u128, 50, 127, true);
     }
 }
